@@ -89,6 +89,13 @@ def are_joinable(
         if alignment != 1:
             return JoinableResult(False, "block2 has a required aligment")
 
+    # A data block with a recorded type or encoding (string, uleb128, ...)
+    # describes exactly its own bytes, so it cannot absorb or be absorbed.
+    for table_def in (_auxdata.types, _auxdata.encodings):
+        table = table_def.get(module)
+        if table and (block1 in table or block2 in table):
+            return JoinableResult(False, "blocks have a data type")
+
     any_symbols = any(
         not sym.at_end for sym in cache.reference_cache.get_references(block2)
     )
@@ -205,6 +212,13 @@ def join_blocks(
             for k, v in displacement_map.items():
                 new_k = block1.size + k
                 new_displacement_map.setdefault(new_k, []).extend(v)
+
+    # This can only be the "block1 is empty" case (see are_joinable), so the
+    # type or encoding of block2 now describes block1.
+    for table_def in (_auxdata.types, _auxdata.encodings):
+        table = table_def.get(module)
+        if table and block2 in table:
+            table[block1] = table.pop(block2)
 
     alignment_data = _auxdata.alignment.get(module)
     if alignment_data:
